@@ -62,7 +62,14 @@ def build_one(exe, rng, idx):
             continue
         if r < 0.25 and h.outstanding:
             # free a slot somewhere in the middle of the table: the cursor will stand right behind it after the next request
-            ent = h.outstanding.pop(rng.randrange(len(h.outstanding)))
+            pick = rng.randrange(len(h.outstanding))
+            if full_phase and idx % 2 == 0:
+                # … or at its very beginning: identifier 0 is an ordinary identifier while status-server is off, and the first one the
+                # wrap-around scan comes to
+                zero = [j for j, e in enumerate(h.outstanding) if e[1] == 0]
+                if zero:
+                    pick = zero[0]
+            ent = h.outstanding.pop(pick)
             # a reply is only accepted once the request was transmitted: sometimes it comes before that (a late answer to an
             # earlier holder of the identifier would look just like it) and must not be matched against the unsent request
             if rng.random() < 0.25:
